@@ -1,16 +1,28 @@
 """C01 — every solver returns the weighted least-squares minimiser."""
 import glob
+import math
+import tempfile
 from lib.core import *
 from lib import gen_ls as g
+from lib import gen_net as gn
 
 ID = "C01"
 PROPS_FILES = sorted("Gama/Props/C01/" + Path(f).name for f in glob.glob(str(LEAN / "Gama/Props/C01/*.lean")))
 LEAN_TARGETS = [f[:-5].replace("/", ".") for f in PROPS_FILES]
-DRIVERS = ["drv_ls"]
+DRIVERS = ["drv_ls", "drv_netfacade"]
 RULE = ("problems (A,b,C,S) from tools/lib/gen_ls.py (small-integer dense with planted dependent columns; levelling "
         "incidence graphs incl. disconnected; unit / diagonal / banded SPD covariance blocks; regularisation subsets "
         "that resolve the defect, decided exactly) x {env,chol,gso,svd} x {solver,adj}; non-trivial = defect>0 or "
-        "correlated covariance; distinct by problem text + subset + algorithm + entry")
+        "correlated covariance; distinct by problem text + subset + algorithm + entry"
+        " || netfacade: class LocalNetwork on generated .gkf networks (tools/lib/gen_net.py: 2D direction/distance, "
+        "levelling, 3D with vectors; fixed or free with constrained points; sigma-apr in {1, 2.5, 10}; noise 1 sigma; "
+        "clusters <obs>/<height-differences>/<vectors>/<coordinates> with a generated SPD band covariance matrix "
+        "(band >= 1), most of them with an observation to a point that is not part of the network = passive inside the "
+        "correlated cluster) x {env,chol,gso,svd}: the system project_equations() assembled (harness/c01_net.cpp, P "
+        "lines) is given to the model of the facade (drv_netfacade) and x, residuals, v'Pv, defect, homogenised A and b "
+        "are compared; exact rational oracle on the implementation's answers (v = Ax-b, A'Pv = 0 with P = m0^2 Sigma^-1 "
+        "of the active principal sub-matrices, v'Pv, minimum norm over min_x); non-trivial = correlated cluster or "
+        "defect>0; distinct by gkf text + algorithm")
 LEVEL_TEXT = ("Lean 4 theorems about executable models of the four solvers and of class Adj: the returned x, v satisfy "
               "v = Ax-b and the normal equations A'Pv = 0 (hence minimal v'Pv), x has minimal S-norm among minimisers, "
               "reported sum of squares = v'Pv — in exact arithmetic over an ordered field, for all sizes/bands/defects, "
@@ -157,7 +169,679 @@ def correspond(ctx, corr):
         corr.inconclusive.append("fewer than 15% problems with defect >= 2")
 
 
+# ======================================================================================= netfacade
+# Second entry point: class LocalNetwork (gama-local).  harness/c01_net.cpp adjusts a generated network with the
+# real class and dumps the system project_equations() assembled ("P " lines) and the answers ("R " lines); the
+# model of the facade (lean/Gama/Model/NetFacade.lean through drv_netfacade) answers on the same P lines.
+
+NF_ALG_NAME = {"env": "envelope", "chol": "cholesky", "gso": "gso", "svd": "svd"}
+NF_SIGMAS = (1, 2.5, 10)
+
+
+def net_harness(ctx):
+    for attempt in range(3):
+        try:
+            d = ctx.build_gama(sanitize=True, targets=("gama-local",))
+            break
+        except BuildError as e:
+            if attempt == 2 or "No such file or directory" not in e.log:
+                raise
+            time.sleep(3 + 5 * attempt)
+    objs = sorted(str(p) for p in (d / "CMakeFiles" / "libgama.dir").rglob("*.o"))
+    if not objs:
+        raise BuildError("c01_net", "no libgama objects under " + str(d))
+    return ctx.build_cpp("c01_net", [ctx.verif / "harness" / "c01_net.cpp"], libs=objs + ["-lexpat"])
+
+
+# ----------------------------------------------------------------------------- generators (all from rng)
+
+def _nf_spd(rng, sds, band):
+    """SPD band covariance matrix C = D L L' D / 4: L lower triangular with bandwidth `band` and diagonal 2..3,
+    D = diag(sds) (the standard deviations in gama's input units: mm, cc).  Returns (band, matrix of floats)."""
+    n = len(sds)
+    band = max(1, min(band, n - 1)) if n > 1 else 0
+    L = [[Fraction(0)] * n for _ in range(n)]
+    for i in range(n):
+        L[i][i] = Fraction(rng.choice((2, 2, 3)))
+        for j in range(max(0, i - band), i):
+            L[i][j] = Fraction(rng.choice((-2, -1, -1, 0, 1, 1, 2)), 2)
+    if band:
+        i = rng.randrange(band, n)
+        if L[i][i - band] == 0:
+            L[i][i - band] = Fraction(rng.choice((-1, 1)), 2)
+    d = [Fraction(x) for x in sds]
+    C = [[float(sum(L[i][k] * L[j][k] for k in range(n)) * d[i] * d[j] / 4) for j in range(n)] for i in range(n)]
+    return band, C
+
+
+def _nf_band(rng, n):
+    return rng.choice([1, 1, 2, 3, n - 1, rng.randint(1, max(1, n - 1))])
+
+
+def _nf_ghost_point(rng, net, mode):
+    """the point G every passive observation refers to: not part of the network at all ("undefined") or listed with
+    coordinates but neither fix nor adj ("unmarked": unused)"""
+    g = {"x": rng.uniform(100, 900), "y": rng.uniform(100, 900), "z": rng.uniform(100, 300)}
+    if mode == "unmarked":
+        p = {"status": "none", "approx": True}
+        if net["dim"] in (2, 3):
+            p.update(x=g["x"], y=g["y"])
+        if net["dim"] in (1, 3):
+            p.update(z=g["z"])
+        net["points"]["G"] = p
+    return g
+
+
+def _nf_correlate_obs(rng, net, o, ghost, gpt):
+    """an <obs> cluster of make_network gets a band covariance matrix; with `ghost` one more observation (to G)"""
+    items = o["items"]
+    if ghost:
+        s = net["points"][o["from"]]
+        if rng.random() < 0.5:
+            it = {"t": "distance", "to": "G", "val": gn.dist2(s, gpt), "stdev": 5.0}
+        else:
+            it = {"t": "direction", "to": "G", "val": (gn.bearing(s, gpt) * gn.GON - o["orient"]) % 400.0, "stdev": 10.0}
+        items.insert(rng.randint(0, len(items)), it)
+    sds = [it["stdev"] for it in items]
+    for it in items:
+        del it["stdev"]
+    o["band"], o["cov"] = _nf_spd(rng, sds, _nf_band(rng, len(items)))
+
+
+def _nf_plane(rng, free, corr, ghost, mode):
+    npts = rng.randint(4, 6)
+    net = gn.make_network(rng, npts=npts, dim=2, nfixed=2, kinds=("direction", "distance"), density=rng.choice((0.3, 0.5)),
+                          noise=1.0, free=free)
+    ids = [p for p in net["points"]]
+    if free and rng.random() < 0.5:                    # only some of the points carry the regularisation
+        keep = set(rng.sample(ids, rng.randint(2, npts - 1)))
+        for p in ids:
+            if p not in keep:
+                net["points"][p]["status"] = "adj"
+    adjustable = [p for p in ids if net["points"][p]["status"] != "fix"]
+    gpt = _nf_ghost_point(rng, net, mode) if ghost else None
+    if corr:
+        what = rng.choice(("obs", "obs", "coords", "both"))
+        g_left = ghost
+        if what in ("obs", "both"):
+            k = rng.randint(1, 2)
+            for o in rng.sample(net["obs"], k):
+                _nf_correlate_obs(rng, net, o, g_left, gpt)
+                g_left = False
+        if what in ("coords", "both"):
+            items = []
+            for p in rng.sample(adjustable, rng.randint(1, min(3, len(adjustable)))):
+                t = net["points"][p]
+                items.append({"id": p, "x": t["x"] + rng.gauss(0, 3e-3), "y": t["y"] + rng.gauss(0, 3e-3)})
+            if g_left or (ghost and rng.random() < 0.5):
+                items.insert(rng.randint(0, len(items)), {"id": "G", "x": gpt["x"], "y": gpt["y"]})
+            sds = [rng.choice((2, 3, 5)) for _ in range(2 * len(items))]
+            band, cov = _nf_spd(rng, sds, _nf_band(rng, len(sds)))
+            net["obs"].insert(rng.randint(0, len(net["obs"])), {"kind": "coords", "items": items, "cov": cov, "band": band})
+    return net
+
+
+def _nf_lev(rng, free, corr, ghost, mode):
+    npts = rng.randint(4, 7)
+    net = gn.levelling_network(rng, npts=npts, nfixed=1, extra=rng.randint(2, 4), noise=1.0, free=free)
+    ids = list(net["points"])
+    if free and rng.random() < 0.5:
+        keep = set(rng.sample(ids, rng.randint(1, npts - 1)))
+        for p in ids:
+            if p not in keep:
+                net["points"][p]["status"] = "adj"
+    gpt = _nf_ghost_point(rng, net, mode) if ghost else None
+    if corr:
+        g_left = ghost
+        base = net["obs"][0]
+        if rng.random() < 0.5:                       # the cluster of the whole network becomes correlated
+            if g_left and rng.random() < 0.5:
+                a = rng.choice(ids)
+                base["items"].insert(rng.randint(0, len(base["items"])),
+                                     {"from": a, "to": "G", "val": gpt["z"] - net["points"][a]["z"]})
+                g_left = False
+            for it in base["items"]:
+                it.pop("dist", None)
+            sds = [rng.choice((1, 1.5, 2, 3)) for _ in base["items"]]
+            base["band"], base["cov"] = _nf_spd(rng, sds, _nf_band(rng, len(sds)))
+        if g_left or rng.random() < 0.7 or not base.get("cov"):
+            items = []
+            for _ in range(rng.randint(2, 5)):
+                a, b = rng.sample(ids, 2)
+                items.append({"from": a, "to": b, "val": net["points"][b]["z"] - net["points"][a]["z"] + rng.gauss(0, 1e-3)})
+            if g_left:
+                a = rng.choice(ids)
+                it = {"from": a, "to": "G", "val": gpt["z"] - net["points"][a]["z"]}
+                if rng.random() < 0.5:
+                    it = {"from": "G", "to": a, "val": -it["val"]}
+                items.insert(rng.randint(0, len(items)), it)
+            sds = [rng.choice((1, 1.5, 2, 3)) for _ in items]
+            band, cov = _nf_spd(rng, sds, _nf_band(rng, len(sds)))
+            net["obs"].insert(rng.randint(0, len(net["obs"])), {"kind": "hdiffs", "items": items, "cov": cov, "band": band})
+    return net
+
+
+def _nf_space(rng, free, corr, ghost, mode):
+    npts = rng.randint(4, 5)
+    net = gn.make_network(rng, npts=npts, dim=3, nfixed=2, kinds=("direction", "distance", "dh", "vector"),
+                          density=0.3, noise=1.0, free=free)
+    ids = list(net["points"])
+    if free and rng.random() < 0.5:
+        keep = set(rng.sample(ids, rng.randint(2, npts - 1)))
+        for p in ids:
+            if p not in keep:
+                net["points"][p]["status"] = "adj"
+    gpt = _nf_ghost_point(rng, net, mode) if ghost else None
+    vec = [o for o in net["obs"] if o["kind"] == "vectors"][0]
+    hd = [o for o in net["obs"] if o["kind"] == "hdiffs"][0]
+    if corr:
+        if ghost:
+            ida = rng.choice(ids)
+            a = net["points"][ida]
+            it = {"from": ida, "to": "G", "dx": gpt["x"] - a["x"], "dy": gpt["y"] - a["y"], "dz": gpt["z"] - a["z"]}
+            vec["items"].insert(rng.randint(0, len(vec["items"])), it)
+        sds = [rng.choice((2, 3, 4)) for _ in range(3 * len(vec["items"]))]
+        vec["band"], vec["cov"] = _nf_spd(rng, sds, rng.choice((1, 2, 2, 5, len(sds) - 1)))
+        if rng.random() < 0.4:
+            if ghost and rng.random() < 0.5:
+                a = rng.choice(ids)
+                hd["items"].insert(rng.randint(0, len(hd["items"])),
+                                   {"from": a, "to": "G", "val": gpt["z"] - net["points"][a]["z"], "stdev": 1.0})
+            sds = [it.pop("stdev") for it in hd["items"]]
+            hd["band"], hd["cov"] = _nf_spd(rng, sds, _nf_band(rng, len(sds)))
+    return net
+
+
+def gen_facade_network(rng, free=None, corr=None, ghost=None):
+    """one network as .gkf text + what the generator intended (flags not given are drawn from rng)"""
+    fam = rng.choice(("plane", "plane", "lev", "lev", "space"))
+    free = (rng.random() < 0.5) if free is None else free
+    corr = (rng.random() < 0.9) if corr is None else corr
+    ghost = corr and ((rng.random() < 0.72) if ghost is None else ghost)
+    mode = rng.choice(("undefined", "unmarked"))
+    net = {"plane": _nf_plane, "lev": _nf_lev, "space": _nf_space}[fam](rng, free, corr, ghost, mode)
+    unresolved = False
+    if fam == "plane" and free and rng.random() < 0.25:
+        # a free network whose regularisation list cannot resolve the defect (one constrained point, or none):
+        # every solver refuses with BadRegularization, and so must the model
+        cons = [p for p, v in net["points"].items() if v["status"] == "con"]
+        for p in cons[rng.randint(0, 1):]:
+            net["points"][p]["status"] = "adj"
+        unresolved = True
+    sigma = rng.choice(NF_SIGMAS)
+    net["params"]["sigma-apr"] = sigma
+    net["params"]["sigma-act"] = rng.choice(("aposteriori", "apriori"))
+    meta = {"family": fam, "free": free, "corr": corr, "ghost": ghost, "ghost_mode": mode if ghost else None, "sigma": sigma,
+            "unresolved": unresolved}
+    text = gn.to_gkf(net, description="C01 netfacade " + " ".join(f"{k}={v}" for k, v in meta.items()))
+    return text, meta
+
+
+def gen_facade_networks(rng, count):
+    """stratified: 56% free, 90% with a correlated cluster, 68% with a passive observation inside one"""
+    def flags(share):
+        k = int(math.ceil(share * count))
+        l = [True] * k + [False] * (count - k)
+        rng.shuffle(l)
+        return l
+    frees, ghosts, plain = flags(0.56), flags(0.68), flags(0.10)
+    out = []
+    for i in range(count):
+        corr = ghosts[i] or not plain[i]
+        out.append(gen_facade_network(rng, frees[i], corr, ghosts[i]))
+    return out
+
+
+# ----------------------------------------------------------------------------- exact oracle on the answers
+
+def _nf_fr(tok):
+    return Fraction(hex2float(tok))
+
+
+def nf_parse_problem(P):
+    """the P lines (prefix stripped) -> dict; every double converted exactly"""
+    pr = {"rows": [], "clusters": [], "minx": [], "rhs": None}
+    for l in P:
+        t = l.split()
+        if t[0] == "net":
+            pr["m"], pr["n"], pr["m0"] = int(t[1]), int(t[2]), _nf_fr(t[3])
+        elif t[0] == "row":
+            k = int(t[1])
+            pr["rows"].append([(int(t[2 + 2 * j]), _nf_fr(t[3 + 2 * j])) for j in range(k)])
+        elif t[0] == "rhs":
+            pr["rhs"] = [_nf_fr(x) for x in t[1:]]
+        elif t[0] == "cluster":
+            dim, band, nobs = int(t[1]), int(t[2]), int(t[3])
+            pr["clusters"].append({"dim": dim, "band": band, "active": [x == "1" for x in t[4:4 + nobs]],
+                                   "buf": t[4 + nobs:]})
+        elif t[0] == "minx":
+            pr["minx"] = [int(x) for x in t[2:2 + int(t[1])]]
+    return pr
+
+
+def nf_features(pr):
+    corr = passive = False
+    for c in pr["clusters"]:
+        if c["band"] >= 1 and any(c["active"]):
+            corr = True
+            if not all(c["active"]):
+                passive = True
+    return corr, passive
+
+
+def _nf_cov_entry(c, i, j):
+    """element (i,j), 0-based, of the symmetric band matrix stored packed: row r holds the diagonal and the next
+    min(band, dim-1-r) elements of the upper band"""
+    if i > j:
+        i, j = j, i
+    if j - i > c["band"]:
+        return Fraction(0)
+    b, d = c["band"], c["dim"]
+    off = c.setdefault("_off", None)
+    if off is None:
+        off, s = [], 0
+        for r in range(d):
+            off.append(s)
+            s += min(b, d - 1 - r) + 1
+        off.append(s)
+        c["_off"] = off
+    return _nf_fr(c["buf"][off[i] + (j - i)])
+
+
+def _nf_inverse(M):
+    """exact inverse by Gauss-Jordan elimination; None if singular"""
+    n = len(M)
+    W = [list(M[i]) + [Fraction(1 if i == j else 0) for j in range(n)] for i in range(n)]
+    for c in range(n):
+        p = next((r for r in range(c, n) if W[r][c] != 0), None)
+        if p is None:
+            return None
+        W[c], W[p] = W[p], W[c]
+        pv = W[c][c]
+        W[c] = [v / pv for v in W[c]]
+        for r in range(n):
+            if r != c and W[r][c] != 0:
+                f = W[r][c]
+                W[r] = [a - f * b for a, b in zip(W[r], W[c])]
+    return [row[n:] for row in W]
+
+
+def nf_weights(pr):
+    """P = m0^2 * blockdiag(Sigma_k^-1), Sigma_k = principal sub-matrix of cluster k's covariance matrix at its active
+    observations; returned as list of (row offset, dense block of Fractions) — or a string if the description is unusable"""
+    blocks, off = [], 0
+    m02 = pr["m0"] * pr["m0"]
+    for c in pr["clusters"]:
+        idx = [i for i, a in enumerate(c["active"]) if a]
+        if not idx:
+            continue
+        if c["dim"] != len(c["active"]):
+            return f"cluster with {len(c['active'])} observations has a {c['dim']}x{c['dim']} covariance matrix"
+        if c["band"] == 0:
+            inv = [[(m02 / _nf_cov_entry(c, i, i)) if i == j else Fraction(0) for j in idx] for i in idx]
+        else:
+            S = [[_nf_cov_entry(c, i, j) for j in idx] for i in idx]
+            inv = _nf_inverse(S)
+            if inv is None:
+                return "singular covariance block"
+            inv = [[m02 * v for v in row] for row in inv]
+        blocks.append((off, inv))
+        off += len(idx)
+    if off != pr["m"]:
+        return f"active observations {off} != rows {pr['m']}"
+    return blocks
+
+
+def _nf_kernel(A, m, n):
+    """numerical kernel of A (floats; complete pivoting on column-scaled A).  Returns (basis or None if the rank is
+    not clear-cut, relative pivots)"""
+    cs = [max([abs(A[i][j]) for i in range(m)] + [0.0]) or 1.0 for j in range(n)]
+    M = [[A[i][j] / cs[j] for j in range(n)] for i in range(m)]
+    cols = list(range(n))
+    piv = []
+    r = 0
+    while r < min(m, n):
+        best, bi, bj = 0.0, -1, -1
+        for i in range(r, m):
+            Mi = M[i]
+            for jj in range(r, n):
+                v = abs(Mi[cols[jj]])
+                if v > best:
+                    best, bi, bj = v, i, jj
+        if bi < 0:
+            break
+        first = piv[0] if piv else best
+        if best < 1e-7 * first:
+            if best > 1e-11 * first:
+                return None, piv + [best], cs
+            break
+        piv.append(best)
+        M[r], M[bi] = M[bi], M[r]
+        cols[r], cols[bj] = cols[bj], cols[r]
+        c = cols[r]
+        pv = M[r][c]
+        M[r] = [v / pv for v in M[r]]
+        for i in range(m):
+            if i != r and M[i][c] != 0.0:
+                f = M[i][c]
+                Mr = M[r]
+                M[i] = [a - f * b for a, b in zip(M[i], Mr)]
+        r += 1
+    rank = r
+    Z = []
+    for jj in range(rank, n):
+        z = [0.0] * n
+        z[cols[jj]] = 1.0
+        for k in range(rank):
+            z[cols[k]] = -M[k][cols[jj]]
+        Z.append([z[j] / cs[j] for j in range(n)])
+    return Z, piv, cs
+
+
+def nf_oracle(P, R, cache=None):
+    """the property on the implementation's own answers: v = Ax - b, A'Pv = 0, reported sum = v'Pv, x of minimum norm
+    over min_x among the minimisers.  Returns (list of violations, info dict)."""
+    info = {}
+    pr = nf_parse_problem(P)
+    if "m" not in pr or pr["rhs"] is None or len(pr["rows"]) != pr["m"]:
+        return ["harness protocol: incomplete system description"], info
+    ans = {}
+    for l in R:
+        t = l.split()
+        if t[1] in ("x", "r"):
+            ans[t[1]] = [_nf_fr(v) for v in t[2:]]
+        elif t[1] == "pvv":
+            ans["pvv"] = _nf_fr(t[2])
+        elif t[1] == "defect":
+            ans["defect"] = t[2:]
+    if not all(k in ans for k in ("x", "r", "pvv", "defect")):
+        return ["no answers: " + " | ".join(R[:2])], info
+    m, n = pr["m"], pr["n"]
+    x, r = ans["x"], ans["r"]
+    bad = []
+    if len(x) != n or len(r) != m:
+        return [f"solve() has {len(x)} elements for {n} unknowns, residuals() {len(r)} for {m} observations"], info
+    if len(ans["defect"]) != 1 or not ans["defect"][0].isdigit():
+        return ["defect(): " + " ".join(ans["defect"])], info
+    defect = int(ans["defect"][0])
+    info["defect"] = defect
+    key = tuple(P)
+    pre = cache.get(key) if cache is not None else None
+    if pre is None:
+        A = [[Fraction(0)] * n for _ in range(m)]
+        for i, row in enumerate(pr["rows"]):
+            for c, v in row:
+                if not 1 <= c <= n:
+                    return [f"row {i + 1} has column index {c} outside 1..{n}"], info
+                A[i][c - 1] += v
+        W = nf_weights(pr)
+        Af = [[float(v) for v in row] for row in A]
+        pre = {"A": A, "W": W, "Af": Af, "kernel": _nf_kernel(Af, m, n)}
+        if cache is not None:
+            cache[key] = pre
+    A, W = pre["A"], pre["W"]
+    if isinstance(W, str):
+        return ["system description unusable: " + W], info
+    b = pr["rhs"]
+    # (i) residuals
+    worst = 0.0
+    for i in range(m):
+        terms = [A[i][j] * x[j] for j in range(n) if A[i][j] != 0]
+        ref = sum(terms, Fraction(0)) - b[i]
+        scale = float(sum((abs(t) for t in terms), Fraction(0)) + abs(b[i]))
+        d = abs(float(ref - r[i]))
+        if d > 1e-7 * scale + 1e-9:
+            worst = max(worst, d)
+            if len(bad) < 3:
+                bad.append(f"residual {i + 1}: residuals() = {float(r[i])!r} but (A x - b) = {float(ref)!r}")
+    # (ii) normal equations, (iii) sum of squares
+    y = [Fraction(0)] * m
+    for off, blk in W:
+        k = len(blk)
+        for i in range(k):
+            y[off + i] = sum((blk[i][j] * r[off + j] for j in range(k) if blk[i][j] != 0), Fraction(0))
+    gmax = 0.0
+    for j in range(n):
+        terms = [A[i][j] * y[i] for i in range(m) if A[i][j] != 0]
+        gj = float(sum(terms, Fraction(0)))
+        scale = float(sum((abs(t) for t in terms), Fraction(0)))
+        if scale > 1e-9:
+            gmax = max(gmax, abs(gj) / scale)
+        if abs(gj) > 1e-7 * scale + 1e-12:
+            bad.append(f"normal equations: (A' P v)[{j + 1}] = {gj:.6g}, scale of its terms {scale:.6g} "
+                       f"(P = m0^2 * inverse of the active covariance blocks)")
+            if len(bad) > 5:
+                break
+    info["max_rel_normal_eq"] = gmax
+    vpv = float(sum((r[i] * y[i] for i in range(m)), Fraction(0)))
+    pvv = float(ans["pvv"])
+    if abs(pvv - vpv) > 1e-7 * abs(vpv) + 1e-12:
+        bad.append(f"trans_VWV() = {pvv!r} but v'Pv = {vpv!r}")
+    # (iv) minimum norm over min_x
+    Z, piv, cs = pre["kernel"]
+    if Z is None:
+        info["kernel"] = "ambiguous"
+    else:
+        Af = pre["Af"]
+        okz = True
+        for z in Z:                 # A z = 0 up to rounding, on the scale of the column-scaled quantities
+            zmax = max([abs(z[j]) * cs[j] for j in range(n)] + [0.0])
+            for i in range(m):
+                amax = max([abs(Af[i][j]) / cs[j] for j in range(n)] + [0.0])
+                if abs(sum(Af[i][j] * z[j] for j in range(n))) > 1e-8 * amax * zmax:
+                    okz = False
+        if not okz:
+            info["kernel"] = "unverified"
+        else:
+            info["kernel"] = len(Z)
+            if len(Z) != defect:
+                bad.append(f"defect() = {defect} but the design matrix has a {len(Z)}-dimensional kernel "
+                           f"(smallest accepted relative pivot {min(piv) / piv[0] if piv else 0:.3g})")
+            elif defect and pr["minx"]:
+                S = sorted(set(j - 1 for j in pr["minx"] if 1 <= j <= n))
+                xf = [float(v) for v in x]
+                for z in Z:
+                    t = [z[j] * xf[j] for j in S]
+                    zs = max([abs(z[j]) for j in S] + [0.0])
+                    xs = max([abs(xf[j]) for j in S] + [0.0])
+                    if abs(sum(t)) > 1e-6 * (sum(abs(v) for v in t) + zs * xs * 1e-3) + 1e-12:
+                        bad.append(f"x is not the minimiser of minimum norm over min_x: <z_S, x_S> = {sum(t):.6g} for a kernel "
+                                   f"vector z of A (terms up to {max(abs(v) for v in t):.6g})")
+                        break
+                info["minnorm_checked"] = True
+    return bad, info
+
+
+# ----------------------------------------------------------------------------- the stream
+
+def _nf_split(out):
+    P = [l[2:] for l in out if l.startswith("P ")]
+    R = [l for l in out if l.startswith("R ")]
+    E = [l for l in out if not (l.startswith("P ") or l.startswith("R "))]
+    return P, R, E
+
+
+def _nf_compare(alg, R, M):
+    rtol = 1e-6 if alg == "svd" else 1e-7
+    if len(R) != len(M):
+        return f"{len(R)} answer lines, model {len(M)}"
+    for a, b in zip(R, M):
+        if not lines_equal(a, b, rtol=rtol, atol=1e-9):
+            return "line '" + " ".join(a.split()[:3]) + "' differs"
+    return None
+
+
+def nf_run(ctx, texts, tmp):
+    """harness + driver on every (network, algorithm).  Returns list of dicts."""
+    exe = net_harness(ctx)
+    cases, idx = [], []
+    for i, text in enumerate(texts):
+        p = tmp / f"n{i}.gkf"
+        p.write_text(text)
+        for alg in ALGS:
+            cases.append([f"load {p} {alg}", "dump"])
+            idx.append((i, alg))
+    impl, crashes = run_cases(exe, cases)
+    mcases = []
+    split = []
+    for k, out in enumerate(impl):
+        P, R, E = _nf_split(out)
+        split.append((P, R, E))
+        mcases.append(P + [f"run {idx[k][1]}"] if P else [])
+    model, mcr = run_cases(ctx.driver("drv_netfacade"), mcases)
+    res = []
+    for k, (i, alg) in enumerate(idx):
+        P, R, E = split[k]
+        res.append({"net": i, "alg": alg, "P": P, "R": R, "E": E, "model": model[k], "ops": mcases[k],
+                    "crash": crashes.get(k), "model_crash": mcr.get(k)})
+    return res
+
+
+def nf_judge(corr, texts, metas, res, fails, stats=True):
+    """model <-> implementation and the oracle for every run; failures appended to `fails`"""
+    cache = {}
+    for e in res:
+        text, meta, alg = texts[e["net"]], metas[e["net"]], e["alg"]
+        payload = {"stream": "netfacade", "gkf": text, "alg": alg}
+        P, R = e["P"], e["R"]
+        if e["crash"]:
+            corr.case()
+            fails.append(Failure("LocalNetwork adjustment crashed / sanitizer report", payload, "LocalNetwork::vyrovnani_",
+                                 e["crash"][1]))
+            continue
+        if not P or not R:
+            corr.case()
+            corr.count("netfacade_unusable")
+            corr.count("netfacade_unusable:" + (" ".join(e["E"][-1].split()[:4]) if e["E"] else "no output")[:60])
+            continue
+        pr = nf_parse_problem(P)
+        is_corr, passive = nf_features(pr)
+        threw = len(R) == 1 and R[0].startswith("R throw")
+        defect = None
+        for l in R:
+            if l.startswith("R defect ") and l.split()[2].isdigit():
+                defect = int(l.split()[2])
+        nontrivial = is_corr or bool(defect)
+        corr.case(key=("netfacade", sha(text), alg) if nontrivial else None,
+                  sample={"stream": "netfacade", "alg": alg, "meta": meta, "ops": [o[:160] for o in e["ops"][:4]],
+                          "impl": [l[:160] for l in R[:4]]} if (e["net"], alg) == (0, "env") else None)
+        if stats:
+            corr.count("netfacade_cases")
+            corr.count("netfacade_alg_" + alg)
+            corr.count("netfacade_family_" + meta.get("family", "?"))
+            corr.count("netfacade_sigma_" + str(meta.get("sigma", "?")))
+            if is_corr:
+                corr.count("netfacade_correlated")
+            if passive:
+                corr.count("netfacade_passive_in_correlated")
+            if defect:
+                corr.count("netfacade_singular")
+            if threw:
+                corr.count("netfacade_throws")
+                corr.count("netfacade_throw:" + " ".join(R[0].split()[2:5])[:60])
+            corr.maxstat("netfacade_max_rows", pr.get("m", 0))
+            corr.maxstat("netfacade_max_unknowns", pr.get("n", 0))
+        why = "model driver crashed" if e["model_crash"] else _nf_compare(alg, R, e["model"])
+        if why:
+            corr.disagree("netfacade", e["ops"], R, e["model"], f"{alg}: {why}")
+        if threw:
+            if R[0].startswith("R throw local") or R[0].startswith("R throw gama") or R[0].startswith("R throw std"):
+                corr.count("netfacade_throws_outside_model")
+            continue
+        bad, info = nf_oracle(P, R, cache)
+        if stats:
+            if info.get("minnorm_checked"):
+                corr.count("netfacade_minnorm_checked")
+            if info.get("kernel") in ("ambiguous", "unverified"):
+                corr.count("netfacade_kernel_" + info["kernel"])
+            corr.maxstat("netfacade_max_rel_normal_eq", info.get("max_rel_normal_eq", 0.0))
+        if bad:
+            fails.append(Failure("netfacade oracle: " + "; ".join(bad[:4]), dict(payload, meta=meta), "LocalNetwork::vyrovnani_",
+                                 " | ".join(l[:400] for l in R[:4])))
+
+
+def netfacade_stream(ctx, corr):
+    t0 = time.time()
+    count = ctx.size(25, 300)
+    gen = gen_facade_networks(ctx.rng, count)
+    texts, metas = [t for t, _ in gen], [m for _, m in gen]
+    corpus = ctx.verif / "corpus" / "C01"
+    for f in sorted(corpus.glob("net-*.gkf")) if corpus.exists() else []:
+        texts.append(f.read_text())
+        metas.append({"family": "corpus", "corpus": f.name})
+    tmp = Path(tempfile.mkdtemp(prefix="c01net-", dir=str(ctx.build)))
+    fails = []
+    try:
+        res = nf_run(ctx, texts, tmp)
+        nf_judge(corr, texts, metas, res, fails)
+    finally:
+        shutil.rmtree(tmp, ignore_errors=True)
+    for f in fails:
+        corr.failures.append(f)
+    tot = corr.stats.get("netfacade_cases", 0)
+    if tot < 0.8 * 4 * count:
+        corr.inconclusive.append(f"netfacade: only {tot} of {4 * count} runs usable")
+    if corr.stats.get("netfacade_passive_in_correlated", 0) < 0.4 * tot:
+        corr.inconclusive.append("netfacade: fewer than 40% of the cases have a passive observation in a correlated cluster")
+    if corr.stats.get("netfacade_singular", 0) < 0.25 * tot:
+        corr.inconclusive.append("netfacade: fewer than 25% singular (free) networks")
+    corr.stats["netfacade_seconds"] = round(time.time() - t0, 1)
+
+
+def netfacade_search(ctx, count=80):
+    """more networks, oracle only (called when the netfacade tie broke and no failing input is at hand)"""
+    big = Ctx(ctx.id, "thorough", ctx.seed + 2000)
+    gen = gen_facade_networks(big.rng, count)
+    texts, metas = [t for t, _ in gen], [m for _, m in gen]
+    tmp = Path(tempfile.mkdtemp(prefix="c01net-", dir=str(ctx.build)))
+    fails = []
+    try:
+        res = nf_run(ctx, texts, tmp)
+        nf_judge(Corr(), texts, metas, res, fails, stats=False)
+    finally:
+        shutil.rmtree(tmp, ignore_errors=True)
+    fails.sort(key=lambda f: len(f.replay["gkf"]))
+    return fails[:5]
+
+
+def netfacade_replay(ctx, inp):
+    tmp = Path(tempfile.mkdtemp(prefix="c01net-", dir=str(ctx.build)))
+    try:
+        algs = [inp["alg"]] if inp.get("alg") in ALGS else ALGS
+        res = [e for e in nf_run(ctx, [inp["gkf"]], tmp) if e["alg"] in algs]
+    finally:
+        shutil.rmtree(tmp, ignore_errors=True)
+    print(inp["gkf"])
+    failed = 0
+    for e in res:
+        print(f"--- algorithm {e['alg']}")
+        for l in e["E"]:
+            print("   ", l)
+        if e["crash"]:
+            print("    CRASH", e["crash"][1][-2000:])
+            failed = 1
+            continue
+        for l in e["P"]:
+            print("    P", l[:240])
+        for l in e["R"]:
+            print("    impl ", l[:240])
+        for l in e["model"]:
+            print("    model", l[:240])
+        why = _nf_compare(e["alg"], e["R"], e["model"]) if e["P"] else "no system dumped"
+        print("    model <-> implementation:", why or "agree")
+        if e["P"] and e["R"] and not e["R"][0].startswith("R throw"):
+            bad, info = nf_oracle(e["P"], e["R"])
+            print("    oracle:", bad or "ok", info)
+            failed |= 1 if bad else 0
+        failed |= 1 if why else 0
+    return failed
+
+
 def search(ctx, broken, corr):
+    if any(getattr(b, "name", "") == "netfacade" or "NetFacade" in getattr(b, "name", "") for b in broken):
+        found = netfacade_search(ctx)
+        if found:
+            return found
     c2 = Corr()
     big = Ctx(ctx.id, "thorough", ctx.seed + 1000)
     big.thorough = True
@@ -182,10 +866,14 @@ def search(ctx, broken, corr):
 
 
 def replay(ctx, payload):
+    if payload.get("stream") == "netfacade":
+        return netfacade_replay(ctx, payload)
     f = payload.get("failure")
     if not f:
         print(json.dumps(payload.get("no_longer_checks"), indent=1)[:3000])
         return 1
+    if f["input"].get("stream") == "netfacade":
+        return netfacade_replay(ctx, f["input"])
     exe = harness(ctx)
     impl, crashes = run_cases(exe, [f["input"]["ops"]])
     print("\n".join(f["input"]["ops"]))
@@ -202,3 +890,4 @@ _correspond_without_cert = correspond
 def correspond(ctx, corr):  # noqa: F811
     _correspond_without_cert(ctx, corr)
     svd_cert.check_certificates(ctx, corr)
+    netfacade_stream(ctx, corr)
